@@ -37,7 +37,54 @@ CLAIMS["C06"] = dict(
     note="Not decided: termination of the mutually recursive grammar functions in parser.go and Go stack exhaustion; the transformer (mk*) type assertions, which depend on the result-list shapes of the grammar; that every error span handed to reportError lies inside the input is proved for scanner spans (C14 span clause) but the propagation through combinator.Error values is not. Assumed preconditions are listed in the evidence (token shape at Wrap, accepted literals convert).",
     ref="DESIGN.md section 4 C06")
 
-NA_DEFAULT = "engine stage not reached: contract designed (DESIGN.md section 4) but its obligations are not discharged by the engine as built, so nothing is claimed"
+
+CLAIMS["C12"] = dict(
+    text="Proof (unbounded, every syntax tree satisfying the class typing wfAST, every flag combination a caller can pass) that each of the 27 byteCode methods, condition, discardingWhile, pushingWhile, ByteCode and ByteCodeNoStck satisfies one type-level contract K whatever strategy the flags select: the code and data segments only grow (existing entries unchanged), every emitted instruction satisfies wfInstr (operand kinds the VM can fetch, data-segment indices in range, MOV/INC destinations assignable), the returned operand descriptor occupies only the requested field, is never an immediate, is a temp-register operand only where the caller can accept one (OpDepth>0 / AcceptTemp / Discard, never under ForbidTemp), an expression always yields a value descriptor, and a statement yields none only when its result is dropped, returned or inside a function. Every if/if-else/while variant keeps the conditional jump that tests its condition (cond_tested), so the condition is type-checked in every position. The same-operand shortcut compares operands structurally without panicking.",
+    note="Not decided: equality of run-time values across strategies (that needs the VM semantics composed with the emitted code; only the structural contract K and the VM-side interface are proved). Assumed: wfAST (the parser and STRewrite only build well-typed trees: expression slots hold expression nodes) via one-level unfolding assumptions per node type; the record view of instruction words (justified bit-level in types/bytecode, C15); HasCall/Constant/Name are trusted pure. Operand-range refusals of EncodeSrc at call sites are panics, not errors (finding D15b, see DESIGN.md), and are outside this check.",
+    ref="DESIGN.md section 4 C12 and change log")
+CLAIMS["C05"] = dict(
+    text="Proof (unbounded) of the function-level content of 'never an internal fault': (a) every value operator (Arith, Mod, Relational, Logic, Shift, Flip, Not, Len, Index, Eq, WeakEq, StrictEq) and every memory method is panic-free under its stated precondition (all index, slice, nil, division and shift obligations discharged, 64-bit exact in types/value); (b) the compiler (all byteCode methods) reaches none of its panics and none of its index/slice/nil/type-assertion faults on any wfAST tree, and emits only instructions satisfying wfInstr; (c) the VM, on code satisfying wfExec (= wfInstr with a fetchable RET operand), never reaches 'unknown source', 'unexpected dst in MOV/INC' or 'unknown opcode': every operand fetch of every opcode case is proved to carry a fetchable kind.",
+    note="Assumed and listed in the evidence: the run-time stack discipline (preconditions of the memory package at VM call sites), typing of data-segment entries used as global names, 'cannot convert value to array', 'can't pop instruction pointer', 'context not found' (these depend on whole-program invariants of compiled code, not on one instruction), nil-dereference/index obligations inside vm.Run and dumpStack other than the report slice, EncodeSrc range refusal by panic at compiler call sites, dead `RET <no value>` instructions emitted after always-returning statements, builtin.Load trees, Go stack exhaustion and memory exhaustion.",
+    ref="DESIGN.md section 4 C05 and change log")
+CLAIMS["C09"] = dict(
+    text="Proof (unbounded) of the residue-relevant function contracts: exact stack-pointer / frame / closure-stack deltas of every memory method (Push +1, Pop -1, PushFrame/PopFrame inverse on sp and fp, ResetSP, Reset); dumpStack leaves the main memory reset, the main ip at the end of code and no registered context; DCONT and RCONT leave no context of the destroyed id range registered (loop invariants over the finite-map model of the children table); the compiler gives nested for loops disjoint context ids and hands the enclosing loops' CtxLo to the body so that a return deletes all of them (outer_lo_inherited), and every conditional statement consumes its condition (cond_tested).",
+    note="Not decided: the whole-statement stack balance (that the code emitted for a statement pushes exactly one value or none on every path) - it needs a stack-effect abstraction of instruction sequences that the contracts do not have; capacity (len(stack)) growth. Assumed: tree-shaped context structure in deleteContext (trusted contract), intmap finite-map semantics.",
+    ref="DESIGN.md section 4 C09 and change log")
+CLAIMS["C10"] = dict(
+    text="Proof (unbounded) that the operations that build arrays allocate: Arith on two arrays returns storage that did not exist before the call and leaves both operands' elements unchanged (frame proved); Index returns a sub-slice and modifies nothing; the VM's ARR step hands value.NewArray a freshly allocated array whatever its operands (array_is_fresh); operand fetch from the data segment returns the constant itself and writes nothing.",
+    note="Not decided: the session-level sentence (every variable still prints as before) - it follows from these frames plus the absence of any in-place element store, which is a syntactic fact of value.go/vm.go checked by the frame obligations of the functions under contract only. Assumed: slices.Clone/append per the Go spec.",
+    ref="DESIGN.md section 4 C10")
+CLAIMS["C04"] = dict(
+    text="Proof (unbounded) of two mechanisms: memory.Set/LookUpLocal/PushFrame/PopFrame address only the top frame (frame clauses of C18, tagged C04), and vm.Run's RET gives a returned function value a copy of exactly the frame it captured (same length and elements) in storage allocated by that RET, on every path that pops a frame or resets the stack (returned_closure_copied / returned_closure_detached).",
+    note="Not decided: name resolution in STRewrite (symbol-table walk) and the escape of closures inside arrays (design defect D11, not expressible in the RET contract as written: a closure inside a returned array is not detached; not claimed either way). Assumed: value views are uninterpreted pure functions; stack discipline.",
+    ref="DESIGN.md section 4 C04")
+CLAIMS["C03"] = dict(
+    text="Proof (unbounded) of the storage facts behind purity: growStack/Push/PushFrame preserve every live slot (C18 frames tagged C03), Clone copies the whole top frame into storage disjoint from the parent also when a memory is recycled, and RET detaches a returned closure from the stack it was defined on.",
+    note="Not decided: the functional sentence itself (equal arguments give equal results) - it is a property of whole executions. Design defect D9 (closure frames alias a stack array that append may reallocate) is outside what these contracts state.",
+    ref="DESIGN.md section 4 C03")
+CLAIMS["C17"] = dict(
+    text="Proof (unbounded, every string) that the ATON step raises the conversion error only for a string that neither strconv.Atoi nor strconv.ParseFloat accepts, i.e. everything toa can render for a number is accepted back.",
+    note="Only this fragment. Not decided: toa/write rendering equality, fromto/elems/indices (library code written as syntax trees), read(). Assumed: Atoi/ParseFloat are deterministic functions of their argument.",
+    ref="DESIGN.md section 4 C17")
+CLAIMS["C19"] = dict(
+    text="Proof (unbounded) that every error exit of vm.Run calls dumpStack with the instruction pointer of the failing instruction and a non-nil error, that this ip lies inside the code segment, that dumpStack's window slice (*CS)[max(0,ip-3):min(len,ip+3)] and its indexing never fail, that the error returned is the error raised, and that the main context is reset afterwards whichever context failed.",
+    note="Not decided: the call list printed by memory.DumpStack (depends on debug info matching the frames; trusted pure here), operand values shown. Clone's ensures[shape] (C18) covers the stale-frame-pointer variant.",
+    ref="DESIGN.md section 4 C19")
+CLAIMS["C08"] = dict(
+    text="Proof (unbounded) that dumpStack, on every error exit and from whichever context, resets the main context's memory (sp 0, no frames, no closures, globals kept), sets the main ip to the end of code and clears the context table; memory.Reset keeps the global map; reportError cannot fail for spans inside the input.",
+    note="Not decided: equivalence of later statements with a failure-free twin session (whole-history property). processInput adding no code on parse errors is not under contract.",
+    ref="DESIGN.md section 4 C08")
+CLAIMS["C02"] = dict(
+    text="Proof (unbounded) of the context mechanics: a forked context (new or recycled) is registered as a child of the forking context and runs on the cloned memory (fork_parent); the clone cannot write the parent's closure stack (closure_separated) and starts with the parent's top frame; nested for loops get disjoint context ids and a return destroys the contexts of all enclosing loops (outer_lo_inherited); DCONT/RCONT unregister every context they destroy.",
+    note="Not decided: the enumeration semantics (values bound in order, lock-step, laziness) - whole-execution properties. Design defect D8 (one temp register for all contexts) is not expressible in these contracts.",
+    ref="DESIGN.md section 4 C02")
+
+NA = {
+ "C01": "no contract within reach decides it: the property equates the results of whole executions (compiler + VM) with a definitional evaluator; the function-level pieces it depends on are claimed separately (C05 interface, C11 operators, C12 structural contract K, C18 memory); composing them needs a VM step semantics and a simulation argument, which is a model, not a contract on one function",
+ "C07": "no contract within reach decides it: the statement quantifies over all syntax trees printed by documented rules and re-parsed; the grammar functions are mutually recursive closures built at init time from combinators whose result lists are unspecified (C13 decides only positions); a round-trip contract would need a printer that does not exist in the repository (writing one would be a model)",
+ "C16": "no contract within reach decides it: the property compares outputs of three whole-program run modes of cmd/calc (process-level behaviour, stdin/files); the line-accumulation loop and readers are I/O bound and their externals (bufio, readline, os) have no usable contracts here",
+}
+NA_DEFAULT = "not applicable"
 
 props = [json.loads(l) for l in open("/verif/properties.jsonl")]
 checks = []
@@ -58,7 +105,7 @@ for p in props:
             "technique": TECH,
         })
     else:
-        na.append({"property_id": pid, "reason": NA_DEFAULT})
+        na.append({"property_id": pid, "reason": NA.get(pid, NA_DEFAULT)})
 
 m = {
     "version": 1,
